@@ -199,17 +199,18 @@ impl<T: Qcow2IoOps> Qcow2Dev<T> {
         }
 
         let max_allocated: u64 = {
+            // everything up to the last refblock: the refcount table may
+            // have holes (regions without refblock) in front of it
             let rt = self.reftable.read().await;
             let mut idx = 0;
 
-            while idx < rt.entries() {
-                if rt.get(idx).is_zero() {
-                    break;
+            for i in 0..rt.entries() {
+                if !rt.get(i).is_zero() {
+                    idx = i + 1;
                 }
-                idx += 1;
             }
 
-            ((idx + 1) as u64) << ((info.rb_index_shift as usize) + info.cluster_bits())
+            (idx as u64) << ((info.rb_index_shift as usize) + info.cluster_bits())
         };
 
         log::debug!(
